@@ -14,6 +14,7 @@ import VotelibProofs.Lemmas.ScaleQuota
 import VotelibProofs.Lemmas.ScaleConvert
 import VotelibProofs.Lemmas.ScaleRanked
 import VotelibProofs.Lemmas.ScaleApproval
+import VotelibProofs.Lemmas.ScaleStar
 import VotelibModel.ScaleFamilies
 import VotelibModel.Gen.Quota
 import Mathlib.Tactic.Ring
@@ -211,6 +212,41 @@ theorem pav_scale (k : Rat) (hk : 0 < k) (coefs : List Rat) (p : Appr.Profile) (
 theorem pav_fresh_scale (k : Rat) (hk : 0 < k) (p : Appr.Profile) (n : Nat) :
     Appr.pav (scaleApproval k p) n = Appr.pav p n := VL.Scale.pav_scale k hk p n
 
+/-! ### the score family (ballot counts are Python ints: the factor is a positive NATURAL number) -/
+
+/-- a score profile (C12 model, `Int` counts) with every ballot count multiplied by the natural number `k` -/
+abbrev scaleScore (k : Nat) (votes : Score.SProfile) : Score.SProfile := VL.Scale.scaleS k votes
+
+/-- the configurations of the score aggregation whose outcome depends on vote SHARES only: `min_count = 0`,
+    `truncation = 0` (both are absolute numbers of votes) and `unscored_value` not the builtin `min` (not proved) -/
+abbrev ScaleFreeCfg (cfg : Score.Cfg) : Prop := VL.Scale.ScaleFreeCfg cfg
+
+/-- **ScoreVoting** with sum, mean or lower median: sums scale by `k`, means and lower medians are literally unchanged
+    (the lower median of a multiset with every element repeated `k` times is the lower median of the multiset).
+    For every positive natural factor and every profile, including refusals. -/
+theorem scoreVoting_scale (cfg : Score.Cfg) (hcfg : ScaleFreeCfg cfg) (k : Nat) (hk : 0 < k) (votes : Score.SProfile) (n : Nat) :
+    Score.scoreVoting cfg (scaleScore k votes) n = Score.scoreVoting cfg votes n :=
+  VL.Scale.scoreVoting_scale cfg hcfg k hk votes n
+
+/-- the aggregate itself: multiplied by `k` for the sum, unchanged for mean and lower median -/
+theorem scoreAggregate_scale (cfg : Score.Cfg) (hcfg : ScaleFreeCfg cfg) (k : Nat) (hk : 0 < k) (votes : Score.SProfile) :
+    Score.convert cfg (scaleScore k votes) = (Score.convert cfg votes).map (scaleVotes (VL.Scale.aggFactor cfg.fn k)) :=
+  VL.Scale.convert_scale cfg hcfg k hk votes
+
+/-- **MajorityJudgment(tie_breaking='plus')**.  (The DEFAULT tie-break is scale dependent — open finding
+    `C11-mj-default-tiebreak-scale`; no theorem is claimed for it.) -/
+theorem majorityJudgmentPlus_scale (cfg : Score.Cfg) (hcfg : ScaleFreeCfg cfg) (k : Nat) (hk : 0 < k)
+    (votes : Score.SProfile) (n : Nat) :
+    Score.majorityJudgment .plus cfg (scaleScore k votes) n = Score.majorityJudgment .plus cfg votes n :=
+  VL.Scale.majorityJudgmentPlus_scale cfg hcfg k hk votes n
+
+/-- **STAR** (score sums, then the Schulze run-off over the pairwise counts derived from the score ballots), any
+    `runoff_added_count` / `runoff_added_fraction`. -/
+theorem star_scale (ac : Nat) (af : Rat) (cfg : Score.Cfg) (hcfg : ScaleFreeCfg cfg) (k : Nat) (hk : 0 < k)
+    (votes : Score.SProfile) (n : Nat) :
+    Score.star ac af cfg (scaleScore k votes) n = Score.star ac af cfg votes n :=
+  VL.Scale.star_scale ac af cfg hcfg k hk votes n
+
 /-- **Near ties are never ties**: totals that differ by one vote at any magnitude (`v` is any rational, so in particular
     `10^30`) are separated. -/
 theorem near_tie_separated (a b : Cand) (v : Rat) :
@@ -250,6 +286,11 @@ example : Condorcet.benham (scaleRanked ((10:Rat)^25 + 7)
 example : Appr.spav (scaleApproval ((10:Rat)^25 + 7) [([1, 2], 3), ([2, 3], 2), ([3], 2)]) 2 = .ok [2, 3] := by decide +kernel
 example : Appr.pav (scaleApproval ((10:Rat)^25 + 7) [([1, 2], 3), ([2, 3], 2), ([3], 2)]) 2
     = .ok [Slot.cand 2, Slot.cand 3] := by decide +kernel
+example : ScaleFreeCfg ⟨.medianLow, .none, 0, .off, 0⟩ ∧ ScaleFreeCfg ⟨.sum, .value 0, 0, .off, 0⟩ := by decide
+example : Score.scoreVoting ⟨.medianLow, .none, 0, .off, 0⟩ (scaleScore 7 [([(1, 3), (2, 5)], 2), ([(1, 4), (2, 1)], 1), ([(2, 2)], 1)]) 1
+    = .ok [Slot.cand 1] := by decide +kernel
+example : Score.star 1 0 ⟨.sum, .none, 0, .off, 0⟩ (scaleScore 7 [([(1, 5), (2, 0), (3, 0)], 2), ([(1, 1), (2, 2), (3, 0)], 3)]) 1
+    = .ok [Slot.cand 2] := by decide +kernel
 example : relativeThreshold (1/3) false (scaleVotes ((10:Rat)^25 + 7) [(1,2),(2,1),(3,3)]) = .ok [3] := by decide +kernel
 example : getNBest (scaleVotes ((10:Rat)^25 + 7) [(1,5),(2,3),(3,3)]) 2 = [Slot.cand 1, Slot.tie [2,3]] := by decide +kernel
 
